@@ -11,7 +11,7 @@ Case = {"cfg": "graph"|"ds"|"cg"|"ro", "method": "GET"|"POST"|"POST_FORM", "fmt"
         "ops": [op…]}
   op = ["add", s,p,o, g, via] | ["addN", [[s,p,o,g]…]] | ["remove", s?,p?,o?, g|None, via] | ["remove_graph", g]
      | ["graph", g] | ["update", g, [lop…], style] | ["commit"] | ["rollback"]
-     | ["triples", s?,p?,o?, g, via] | ["len", g] | ["contains", s?,p?,o?, g] | ["contexts", None|[s,p,o]]
+     | ["triples", s?,p?,o?, g, via] | ["len", g] | ["contains", s?,p?,o?, g, via] | ["contexts", None|[s,p,o]]
      | ["query", kind, g, arg] | ["slice", s?,p?,o?, g, limit|None, offset|None]
   lop = ["I", [[s,p,o]…]] | ["D", [[s,p,o]…]] | ["W", [s?,p?,o?]]
 Terms are small integers (vocabulary below); graph names 90…; 0 = the default graph / "no graph named";
@@ -55,8 +55,8 @@ ASSUMPTIONS = [
     "blank nodes are outside the property (only the documented refusal and the node_to_sparql hook are exercised)",
     "C0 control characters other than TAB/LF/CR cannot travel in XML 1.0 results and backslash-u sequences are "
     "code-point escapes in SPARQL text: neither is in the vocabulary",
-    "ConjunctiveGraph/Dataset reads are driven with triple patterns and through graph views, never with a Graph "
-    "object as fourth element (ConjunctiveGraph._graph then copies that graph into itself: reads that write)",
+    "quad patterns given to Dataset/ConjunctiveGraph carry graph identifiers (or graphs of the same store); a Graph "
+    "object of ANOTHER store as fourth element is by design copied into the dataset and is not driven",
 ]
 TRUSTED = ["harness/c20.py generators, canonicalisation and the mapping of Graph/Dataset/ConjunctiveGraph calls to "
            "store-level contexts", "harness/c20_endpoint.py (loop-back endpoint)", "lean/RV/C20/Drive.lean line protocol",
@@ -222,12 +222,12 @@ def gen_case(rng, tier, i):
         else:  # ---- reads
             k = rng.random()
             if k < 0.38:
-                ops.append(["triples"] + _mask(rng, some_triple(g)) + [g, rng.randint(0, 1)])
+                ops.append(["triples"] + _mask(rng, some_triple(g)) + [g, rng.randint(0, 2)])
             elif k < 0.48:
                 ops.append(["len", g])
             elif k < 0.62:
                 t = some_triple(g)
-                ops.append(["contains"] + (t if rng.random() < 0.7 else _mask(rng, t)) + [g])
+                ops.append(["contains"] + (t if rng.random() < 0.7 else _mask(rng, t)) + [g, rng.randint(0, 1)])
             elif k < 0.74 and cfg != "graph":
                 falsy = [q[:3] for q in present if q[2] in (20, 21, 22)]
                 ops.append(["contexts", None if rng.random() < 0.4 else
@@ -552,6 +552,10 @@ def run_impl(case):
                 pat = (term(s), term(p), term(o))
                 if cfg in ("ds", "ro", "cg") and g == 0 and (via == 0 or cfg == "cg"):
                     result = list(top.triples(pat))
+                elif via == 2 and cfg != "graph" and not (cfg == "cg" and g == G0):
+                    # quad pattern on the Dataset / ConjunctiveGraph (a ConjunctiveGraph asked for its OWN
+                    # identifier means its union = the endpoint's default graph: documented, not driven)
+                    result = list(top.triples(pat + (DATASET_DEFAULT_GRAPH_ID if g == 0 else GNAME[g],)))
                 else:
                     result = list(view(top, g).triples(pat))
                 out = _fmt_triples([(_tid(a), _tid(b), _tid(c)) for a, b, c in result])
@@ -560,9 +564,15 @@ def run_impl(case):
                 result = len(top) if (g == 0 and cfg != "graph") else len(view(top, g))
                 out = f"N {result}"
             elif k == "contains":
-                s, p, o, g = op[1:]
+                s, p, o, g = op[1:5]
+                via = op[5] if len(op) > 5 else 0
                 pat = (term(s), term(p), term(o))
-                result = (pat in top) if (g == 0 and cfg != "graph") else (pat in view(top, g))
+                if g == 0 and cfg != "graph":
+                    result = pat in top
+                elif via == 1 and cfg != "graph" and not (cfg == "cg" and g == G0):  # quad membership
+                    result = (pat + (GNAME[g],)) in top
+                else:
+                    result = pat in view(top, g)
                 out = "B " + ("true" if result else "false")
             elif k == "contexts":
                 tr = None if op[1] is None else tuple(term(x) for x in op[1])
@@ -705,7 +715,7 @@ def run_impl(case):
                 if result != want:
                     viol.append(f"read: op {k_i} len = {result}, the endpoint's graph has {want} triples")
             elif k == "contains" or (k == "query" and op[1] == "ask"):
-                pat, g = (op[1:4], op[4]) if k == "contains" else (op[3], op[2])
+                pat, g = (op[1:4], op[4]) if k == "contains" else (op[3], op[2])  # (op[5] = via)
                 want = bool(expected(g, pat, B))
                 if result != want:
                     viol.append(f"read: op {k_i} {op} answered {result}, the endpoint's graph says {want}")
